@@ -151,6 +151,21 @@ def run_tlc_shards(module, cfg, shards, scratch, timeout=600, extra_env=None, he
     return results
 
 
+def run_design_level(module, cfg, scratch, timeout=600):
+    """TLC on a specification alone (no implementation involved): -> (ok, generated, distinct, output)"""
+    md = os.path.join(scratch, "design_" + module)
+    os.makedirs(md, exist_ok=True)
+    cmd = ["java", "-XX:+UseParallelGC", "-Xmx3g", f"-DTLA-Library={SPEC}:{os.path.join(SPEC, 'mc')}", "-cp", TLA_CP, "tlc2.TLC",
+           "-workers", "4", "-metadir", md, "-noGenerateSpecTE", "-config", os.path.join(SPEC, "mc", cfg), os.path.join(SPEC, "mc", module)]
+    try:
+        p = subprocess.run(cmd, capture_output=True, text=True, timeout=timeout, cwd=md)
+        out = p.stdout + p.stderr
+    except subprocess.TimeoutExpired:
+        return False, 0, 0, "TIMEOUT"
+    m = re.search(r"(\d+) states generated, (\d+) distinct states found", out)
+    return "No error has been found" in out, int(m.group(1)) if m else 0, int(m.group(2)) if m else 0, out
+
+
 def shard(items, n):
     n = max(1, min(n, len(items)))
     return [items[i::n] for i in range(n)]
